@@ -1,5 +1,5 @@
-(* C14 — labels are unambiguous.  Only statements closed by [exact]. *)
-From WD Require Import Base LetterId LetterIdProofs.
+(* C14 — labels are unambiguous and work as matchers.  Only statements closed by [exact]. *)
+From WD Require Import Base LetterId LetterIdProofs Matcher MatcherParse Doc LabelMatcher.
 Open Scope N_scope.
 
 (* letters convert back to the same position, for every index, both cases *)
@@ -33,6 +33,40 @@ Print Assumptions C14_label_inj.
 Theorem C14_conn_names_distinct : forall n m, conn_name n = conn_name m -> n = m.
 Proof. exact n2l_caps_inj. Qed.
 Print Assumptions C14_conn_names_distinct.
+
+(* a displayed label used as a matcher (`B: 7c`): the text parses (0, 1 or 2 blanks at every place the
+   parser strips them; mixed placements: see DESIGN.md) and the matcher the user gets selects exactly
+   the messages of that connection that are on the object, create it, destroy it or mention it.
+   The object is identified by id AND incarnation: gen_of o = g. *)
+Theorem C14_label_as_matcher : forall lay cname id g m,
+  wf_word cname = true -> (0 <= id)%Z ->
+  exists p, parse_simplify (Doc.render lay (label_expr cname id (n2l false g))) = Ok p
+            /\ matches p (VM m) = conn_is cname m && involves id g m.
+Proof. exact label_as_matcher. Qed.
+Print Assumptions C14_label_as_matcher.
+
+(* ... for every white-space placement (DocLay.Renders), in particular exactly as displayed: `B: 7c` *)
+Theorem C14_displayed_label_as_matcher : forall cname id g m,
+  wf_word cname = true -> (0 <= id)%Z ->
+  exists p, parse_simplify (label_text_of cname id (n2l false g)) = Ok p
+            /\ matches p (VM m) = conn_is cname m && involves id g m.
+Proof. exact displayed_label_as_matcher. Qed.
+Print Assumptions C14_displayed_label_as_matcher.
+Example C14_displayed_label_text : label_text_of (s2l "B") 7 (n2l false 2) = s2l "B: 7c".
+Proof. exact displayed_label_text. Qed.
+
+(* `B:` selects exactly the messages of that connection *)
+Theorem C14_conn_as_matcher : forall lay cname m,
+  wf_word cname = true ->
+  exists p, parse_simplify (Doc.render lay (conn_expr cname)) = Ok p /\ matches p (VM m) = conn_is cname m.
+Proof. exact conn_as_matcher. Qed.
+Print Assumptions C14_conn_as_matcher.
+Theorem C14_conn_is_equality : forall w s, mem_char 42%N w = false -> word_matches w s = str_eqb w s.
+Proof. exact word_matches_plain. Qed.
+Example C14_label_text : Doc.render 0 (label_expr (s2l "B") 7 (n2l false 2)) = s2l "B:7c"
+  /\ Doc.render 1 (label_expr (s2l "B") 7 (n2l false 2)) = s2l " B : 7c "
+  /\ wf_word (conn_name 1) = true /\ wf_word (conn_name 700) = true.
+Proof. exact label_text. Qed.
 
 (* non-vacuity: concrete labels *)
 Example C14_ex1 : n2l false 27 = s2l "ab" /\ id_label 7 2 = s2l "7c" /\ conn_name 701 = s2l "ZZ".
